@@ -78,6 +78,7 @@ let run mode file =
        | _ -> ())
     | "o" :: rest -> cur := rest; incr opidx;
       (match rest with "img" :: _ -> () | _ -> Buffer.add_string optext (String.concat " " rest); Buffer.add_char optext '\n');
+      (match rest with "open" :: _ -> ms := None; open_free := None; data_written := IS.empty | _ -> ());
       (match rest with
        | "open" :: fields -> List.iter (fun f -> match String.split_on_char '=' f with ["ps"; v] -> ps := int_of_string v | _ -> ()) fields
        | ["close"] -> Hashtbl.reset readers
@@ -158,7 +159,7 @@ let run mode file =
       let ifree = List.sort compare (ints_of_csv (get kv "flfree")) in
       let ipend = List.sort compare (List.concat_map (fun ent -> match String.split_on_char ':' ent with
           | [_; ids] -> ints_of_csv ids | _ -> []) (if get kv "flpend" = "-" then [] else String.split_on_char ';' (get kv "flpend"))) in
-      if what = "open" then open_free := Some ifree;
+      if what = "open" then open_free := (if get kv "flloaded" = "1" then Some ifree else None);   (* read-only open without preload: no list yet *)
       (match !ms with
        | Some s when not !mdead ->
          if what = "beginw" then begin
